@@ -16,6 +16,7 @@ RULE = (
     "dim 1-3 x models x anisotropy ratios x rotation x periods per axis x even mode counts x seeds x off-grid points; "
     "update histories (<= 6 steps) of period / mode_no / seed / model (in place and re-assigned); non-trivial = anisotropic or "
     "rotated model, or at least one update step"
+    " History operations include single-axis and in-place period edits, scalar periods equal to one axis, rotated models with ratios 1 or within 1e-5 of 1."
 )
 ASSUMPTIONS = ["main axes from the independent rotation oracle (gsverif/oracles/rot.py)"]
 LEVEL_TEXT = (
